@@ -34,12 +34,16 @@ func shortStack() string {
 // Alt is one alternative at a choice point.
 type Alt struct {
 	Crash bool
+	Fault bool // the process's pending filesystem call fails with EIO
 	Pid   int
 }
 
 func (a Alt) String() string {
 	if a.Crash {
 		return fmt.Sprintf("crash%d", a.Pid)
+	}
+	if a.Fault {
+		return fmt.Sprintf("fault%d", a.Pid)
 	}
 	return fmt.Sprintf("p%d", a.Pid)
 }
@@ -49,6 +53,7 @@ type point struct {
 	key         uint64
 	preBefore   int
 	crashBefore int
+	faultBefore int
 	curEnabled  bool
 }
 
@@ -72,7 +77,9 @@ type Scenario struct {
 	MaxPreempt int
 	// MaxCrashes is the number of crash-as-choice deviations allowed (0 or 1).
 	MaxCrashes int
-	Horizon    int
+	// MaxFaults is the number of injected I/O faults allowed per execution (deviation bound).
+	MaxFaults int
+	Horizon   int
 	// GlobalsHash folds package-level state of the code under test into the key.
 	GlobalsHash func() uint64
 }
@@ -127,6 +134,17 @@ func NewExplorer(sc *Scenario) *Explorer {
 
 func stateKey(w *World, sc *Scenario, cur int, bounded bool) uint64 {
 	h := fnv.New64a()
+	if sc.MaxFaults > 0 || sc.MaxCrashes > 0 {
+		// remaining deviation budgets are part of the state
+		nf, nc := 0, 0
+		for _, p := range w.Procs {
+			nf += p.Faults
+			if p.Crashed {
+				nc++
+			}
+		}
+		fmt.Fprintf(h, "F%dC%d|", nf, nc)
+	}
 	w.DirKey(h)
 	for _, p := range w.Procs {
 		fmt.Fprintf(h, "P%d|%v|%v|%d|%x|%s|", p.ID, p.Finished, p.Crashed, p.CallIdx, p.obs, p.pending)
@@ -161,7 +179,7 @@ func (e *Explorer) run(prefix []int, useCache bool, keepTrace bool) (*Exec, erro
 		<-w.yieldCh
 	}
 	cur := -1
-	pre, crashes := 0, 0
+	pre, crashes, faults := 0, 0, 0
 	bounded := sc.MaxPreempt >= 0
 	defer func() {
 		// unwind whatever is left
@@ -196,10 +214,17 @@ func (e *Explorer) run(prefix []int, useCache bool, keepTrace bool) (*Exec, erro
 				}
 			}
 		}
+		if faults < sc.MaxFaults {
+			for _, p := range w.Procs {
+				if !p.Finished && p.InCall && Faultable(p.pending.Kind) {
+					alts = append(alts, Alt{Fault: true, Pid: p.ID})
+				}
+			}
+		}
 		choice := 0
 		if len(alts) > 1 {
 			pi := len(x.points)
-			pt := point{alts: alts, preBefore: pre, crashBefore: crashes, curEnabled: curEnabled}
+			pt := point{alts: alts, preBefore: pre, crashBefore: crashes, faultBefore: faults, curEnabled: curEnabled}
 			if pi < len(prefix) {
 				choice = prefix[pi]
 				if choice < 0 || choice >= len(alts) {
@@ -227,7 +252,7 @@ func (e *Explorer) run(prefix []int, useCache bool, keepTrace bool) (*Exec, erro
 			x.Choices = append(x.Choices, choice)
 		}
 		a := alts[choice]
-		if curEnabled && choice != 0 && !a.Crash {
+		if curEnabled && choice != 0 && !a.Crash && !(a.Fault && a.Pid == cur) {
 			pre++
 		}
 		x.Schedule = append(x.Schedule, a.String())
@@ -237,6 +262,10 @@ func (e *Explorer) run(prefix []int, useCache bool, keepTrace bool) (*Exec, erro
 			p.killed = true
 			p.Crashed = true
 		} else {
+			if a.Fault {
+				faults++
+				p.faultNext = true
+			}
 			cur = a.Pid
 		}
 		w.cur = p
@@ -384,6 +413,13 @@ func (e *Explorer) Explore() {
 				a := p.alts[alt]
 				if a.Crash {
 					if p.crashBefore >= sc.MaxCrashes {
+						continue
+					}
+				} else if a.Fault {
+					if p.faultBefore >= sc.MaxFaults {
+						continue
+					}
+					if p.curEnabled && a.Pid != p.alts[0].Pid && sc.MaxPreempt >= 0 && p.preBefore+1 > sc.MaxPreempt {
 						continue
 					}
 				} else if p.curEnabled && sc.MaxPreempt >= 0 && p.preBefore+1 > sc.MaxPreempt {
